@@ -29,7 +29,7 @@ def grid_mm(dmax):
     return [dict(kind=k, d=d) for k in ('mv', 'vm', 'mm') for d in range(1, dmax + 1)]
 
 
-@scenario('C04', 'matmul', 'torchtt._tt_base.TT.__matmul__', quick=grid_mm(3), thorough=grid_mm(4), replay='tt_op')
+@scenario('C04', 'matmul', 'torchtt._tt_base.TT.__matmul__', quick=grid_mm(3), thorough=grid_mm(4), dtypes=('float64', 'float32'), replay='tt_op')
 def matmul(ob, kind, d):
     ex = ob.ex
     if kind == 'mv':
@@ -49,7 +49,7 @@ def matmul(ob, kind, d):
     ob.wf(res)
     f = fields(ob, res)
     all_eq(ob, 'R', f['R'], [a * b for a, b in zip(l.R_, r.R_)], 'rank')
-    prove_dtype(ob, res, 'float64')
+    prove_dtype(ob, res, ob.dt())
     if kind == 'mv':
         all_eq(ob, 'N', f['N'], A.M_)
         ob.prove('is_tensor', f['is_ttm'] is False)
@@ -79,15 +79,15 @@ def grid_dense(dmax, bmax):
 
 
 @scenario('C04', 'matmul_dense', ['torchtt._tt_base.TT.__matmul__', 'torchtt._aux_ops.dense_matvec'],
-          quick=grid_dense(2, 1), thorough=grid_dense(4, 3), replay='tt_op')
+          quick=grid_dense(2, 1), thorough=grid_dense(4, 3), dtypes=('float64', 'float32'), replay='tt_op')
 def matmul_dense(ob, d, nb):
     """A @ dense with nb leading batch dimensions: result[b, m] = SUM_n A[m, n] dense[b, n]"""
     ex = ob.ex
     A = ob.tt('A', d, ttm=True)
     B = H.sym_sizes(ex, 'B', nb)
-    D = T.atom_tensor('D', B + A.N_)
+    D = T.atom_tensor('D', B + A.N_, ob.dt())
     ex.register_arg(D, 'D')
-    ob.describe('D', {'kind': 'dense', 'shape': B + A.N_, 'dtype': 'float64'})
+    ob.describe('D', {'kind': 'dense', 'shape': B + A.N_, 'dtype': ob.dt()})
     ob.replay_args = {'op': 'matmul', 'x': 'A', 'y': 'D', 'check_dtype': False}
     res = ex.binop('MatMult', A, D)
     if not isinstance(res, STensor):
@@ -101,14 +101,14 @@ def matmul_dense(ob, d, nb):
     b, m = flat[:nb], flat[nb:]
     rhs = sum_over(ex, A.N_, lambda n: val(ob, A, list(zip(m, n))) * D.at(b + n))
     ob.prove_eq('value', res.at(ix), rhs)
-    if res.dtype != 'float64':
-        ob.fail('dtype', 'dtype', 'result dtype %s' % res.dtype)
+    if res.dtype != ob.dt():
+        ob.fail('dtype', 'dtype', 'result dtype %s, operands %s' % (res.dtype, ob.dt()))
     else:
         ob.ok('dtype', 'dtype')
     ob.frame()
 
 
-@scenario('C04', 'transpose', 'torchtt._tt_base.TT.t', quick=orders(1, 3), thorough=orders(1, 4), replay='unary')
+@scenario('C04', 'transpose', 'torchtt._tt_base.TT.t', quick=orders(1, 3), thorough=orders(1, 4), dtypes=('float64', 'float32'), replay='unary')
 def transpose(ob, d):
     ex = ob.ex
     A = ob.tt('A', d, ttm=True)
@@ -122,7 +122,7 @@ def transpose(ob, d):
     all_eq(ob, 'M', f['M'], A.N_)
     all_eq(ob, 'N', f['N'], A.M_)
     all_eq(ob, 'R', f['R'], A.R_, 'rank')
-    prove_dtype(ob, res, 'float64')
+    prove_dtype(ob, res, ob.dt())
     idx = mode_index(ob, res)
     ob.prove_eq('value', val(ob, res, idx), val(ob, A, [(n, m) for m, n in idx]))
     ob.frame()
@@ -133,7 +133,7 @@ def grid_same(dmax):
 
 
 @scenario('C04', 'binop.operators', ['torchtt._tt_base.TT.__add__', 'torchtt._tt_base.TT.__sub__', 'torchtt._tt_base.TT.__mul__'],
-          quick=grid_same(2), thorough=grid_same(4), replay='tt_op')
+          quick=grid_same(2), thorough=grid_same(4), dtypes=('float64', 'float32'), replay='tt_op')
 def binop_operators(ob, op, d):
     x = ob.tt('x', d, ttm=True)
     y = ob.tt('y', d, ttm=True, N=x.N_, M=x.M_)
@@ -151,7 +151,7 @@ def binop_operators(ob, op, d):
     else:
         want = [1] + [x.R_[k] * y.R_[k] for k in range(1, d)] + [1]
     all_eq(ob, 'R', f['R'], want, 'rank')
-    prove_dtype(ob, r, 'float64')
+    prove_dtype(ob, r, ob.dt())
     idx = mode_index(ob, r)
     ob.prove_eq('value', val(ob, r, idx), _c03.dense_op(op, val(ob, x, idx), val(ob, y, idx)))
     ob.frame()
@@ -160,7 +160,7 @@ def binop_operators(ob, op, d):
 @scenario('C04', 'scalar.operators', ['torchtt._tt_base.TT.__add__', 'torchtt._tt_base.TT.__radd__', 'torchtt._tt_base.TT.__sub__', 'torchtt._tt_base.TT.__rsub__',
                                       'torchtt._tt_base.TT.__mul__', 'torchtt._tt_base.TT.__rmul__', 'torchtt._tt_base.TT.__truediv__'],
           quick=[g for g in _c03.grid_scalar(2) if g['kind'] in ('float', 'tensor0', 'np.int64')],
-          thorough=_c03.grid_scalar(4), replay='tt_op')
+          thorough=_c03.grid_scalar(4), dtypes=('float64', 'float32'), replay='tt_op')
 def scalar_operators(ob, op, kind, d):
     _c03.scalar_body(ob, op, kind, d, ttm=True)
 
